@@ -1,6 +1,6 @@
 (* Extraction of the updateio models for the correspondence driver (ExtrOcamlBasic only). *)
 From Coq Require Extraction ExtrOcamlBasic.
 From FlacBase Require Import Res Bits.
-From FlacUpdIo Require Import GenUpd Update.
+From FlacUpdIo Require Import GenUpd Update IoFault.
 Extraction Language OCaml.
-Extraction "updateio_model.ml" d_update.
+Extraction "updateio_model.ml" d_update d_run_writer d_update_io.
